@@ -152,6 +152,13 @@ def _nontrivial(res):
     return any(isinstance(x, np.ndarray) and x.size for _, x in _flat(res[1]))
 
 
+BASE_MODULES = ("ekore.harmonics", "ekore.anomalous_dimensions", "eko.beta", "eko.gamma")
+
+
+def _is_base(mod):
+    return mod.startswith("ekore.harmonics") or mod in BASE_MODULES
+
+
 def _shards(functions, nshards):
     by_mod = {}
     for fn in functions:
@@ -204,24 +211,38 @@ def run(ck):
         kinds = {fn["mod"] + "." + fn["name"]: fn["kind"] for fn in functions}
 
         # ---- 3. shard and run both builds
-        nshards = max(1, min(compile_workers, len(exercised)))
-        shards = _shards(exercised, nshards)
-        items = []
+        # Two phases over ONE numba cache directory that is created empty for this run (never a cache of an
+        # earlier run: numba keys entries on the caller file only).  Phase 1 compiles the base layer every other
+        # module calls into (harmonic sums + their cache, matrix exponentials, beta functions); phase 2 compiles
+        # everything else concurrently and finds the base layer already built instead of rebuilding it per shard.
+        base = [fn for fn in exercised if _is_base(fn["mod"])]
+        rest = [fn for fn in exercised if not _is_base(fn["mod"])]
+        base_shards = []
+        harm = sorted([fn for fn in base if fn["mod"].startswith("ekore.harmonics")], key=lambda fn: (not fn["mod"].endswith(".cache"), fn["mod"]))
+        misc = [fn for fn in base if not fn["mod"].startswith("ekore.harmonics")]
+        for grp in (harm, misc):
+            if grp:
+                base_shards.append(grp)
+        rest_shards = _shards(rest, max(1, min(compile_workers, len(rest)))) if rest else []
+        shards = base_shards + rest_shards
+        cdir = os.path.join(tmp, "nbcache")
+        os.makedirs(cdir)
+        tmo = 3600 if thorough else 1500
+        jit_items, py_items = [], []
         for i, sh in enumerate(shards):
             job = {"functions": {fn["mod"] + "." + fn["name"]: dict(kind=fn["kind"], cases=cases[fn["mod"] + "." + fn["name"]]) for fn in sh}}
             inp = os.path.join(tmp, f"shard{i}.in.pkl")
             with open(inp, "wb") as fh:
                 pickle.dump(job, fh)
-            cdir = os.path.join(tmp, f"nbcache{i}")  # fresh, private to the shard: never a stale or shared cache
-            os.makedirs(cdir)
-            tmo = 3600 if thorough else 900
-            items.append((f"jit{i}", True, inp, os.path.join(tmp, f"shard{i}.jit.pkl"), cdir, tmo))
-            items.append((f"py{i}", False, inp, os.path.join(tmp, f"shard{i}.py.pkl"), cdir, tmo))
-        # JIT children first (long), interpreter children fill the gaps
-        items.sort(key=lambda it: (not it[1]))
+            jit_items.append((f"jit{i}", True, inp, os.path.join(tmp, f"shard{i}.jit.pkl"), cdir, tmo))
+            py_items.append((f"py{i}", False, inp, os.path.join(tmp, f"shard{i}.py.pkl"), cdir, tmo))
         status = {}
-        for it, st, val in jobs.pmap(_run_child, items, workers=compile_workers, timeout=4000 if thorough else 1200):
-            status[it[0]] = val if st == "ok" else dict(status=st, detail=str(val)[:500], wall=None)
+        nb = len(base_shards)
+        for phase in (jit_items[:nb] + py_items, jit_items[nb:]):
+            if not phase:
+                continue
+            for it, st, val in jobs.pmap(_run_child, phase, workers=compile_workers, timeout=2 * tmo):
+                status[it[0]] = val if st == "ok" else dict(status=st, detail=str(val)[:500], wall=None)
 
         # ---- 4. compare
         n_prog = 0
